@@ -708,6 +708,47 @@ def level_ternary():
                             return enc(binop(op2, r1, c))
                         emit('t_%s_%s' % (op1, op2), [a, b, c], t)
 
+# ---------------------------------------------------------------- int -> float rounding boundaries
+
+def rounding_ints():
+    """ints that sit on, just below and just above a float64 rounding tie at each magnitude where
+    int -> float conversion has to round (so that a conversion that rounds twice, truncates, or
+    breaks ties the wrong way is visible), with both parities of the kept mantissa"""
+    out = []
+    for k in ([53, 54, 63, 64, 65, 100, 127, 200, 1023] if THOROUGH else [53, 54, 63, 64, 65, 127, 200]):
+        h = 2 ** (k - 53)            # half an ulp at magnitude 2^k
+        for base in (2 ** k, 2 ** k + 2 * h, 2 ** (k + 1) - 2 * h):
+            for d in (-1, 0, 1):
+                for x in (base + h + d, -(base + h + d)):
+                    if x not in out:
+                        out.append(x)
+        # a tie that is only visible beyond 64 bits of the operand (k > 64): low bits far below the tie
+        if k > 64:
+            for x in (2 ** k + h + 2 ** (k - 70), 2 ** k + h - 2 ** (k - 70), 2 ** k + 2 ** (k - 64) + 1):
+                out.append(x)
+                out.append(-x)
+    return out
+
+def level_rounding():
+    OUT.level('1b-int-float-rounding-boundaries')
+    xs = rounding_ints()
+    partners = [0.0, 1.0, -1.0, 0.5, 2.0 ** 53, 2.0 ** 64, -(2.0 ** 64), 1, -1, 0]
+    for x in xs:
+        for op in UNOPS:
+            if op in BUILTIN_UNOPS:
+                emit(op, [x], lambda: orE(unop(op, x)))
+            else:
+                emit(op, [x], lambda: enc(unop(op, x)))
+        near = []
+        try:
+            f = float(x)
+            near = [f, math.nextafter(f, INF), math.nextafter(f, -INF)]
+        except OverflowError:
+            pass
+        for y in partners + near:
+            emit_pair(x, y, BINOPS)
+            emit_pair(y, x, BINOPS)
+
 def level_sampled():
     OUT.level('9-sampled-extra')
     rnd = random.Random(10)
@@ -726,6 +767,7 @@ def level_sampled():
 
 def main():
     level_conv()
+    level_rounding()
     small = [x for x in NUMS if (is_int(x) and abs(x) <= 2 ** 33 + 1) or (is_float(x) and (x != x or abs(x) <= 2.0 ** 32 or x in (INF, -INF)))]
     big = [x for x in NUMS if x not in small and not (is_float(x) and x != x)]
     # nan != nan, so 'not in' keeps it in small only (identity), as intended
